@@ -5,18 +5,22 @@ CONSTANTS
   NChunks = 2
   AutoChoices = {{"P1"}}
   HwChoices = {{"P2"}}
+  NoDefChoices = {{}}
+  CfgVals = {"v1"}
   Faults = {"crash", "ioerror"}
   Corruptions = {}
   Dev = {}
-  Depth = 8
+  Depth = 12
   MaxChanges = 2
   MaxSaves = 1
   MaxFaults = 1
   MaxStarts = 2
-  MaxCorrupt = 1
+  MaxCorrupt = 0
+  MaxOther = 0
   FirstCfgs = {0}
   StartCfgs = {0, 1}
-  CfgVals = {"v1"}
+  CfgKinds = {"value"}
+  Vias = {"set"}
 CONSTRAINT Bound
 INVARIANT Emit1
 CHECK_DEADLOCK FALSE
